@@ -192,17 +192,45 @@ impl Sweep {
         // ---- G2: every trigger word next to every other -------------------------------------
         let vocab = Arc::new(h.vocab.clone());
         let fe_plain = fe_idx(&fes, name_is("plain"));
-        fams.push(Family {
-            name: "G2/pairs".into(),
-            fes: fe_plain.clone(),
-            generator: Gen::Pairs {
-                vocab: vocab.clone(),
-                vocab2: vocab.clone(),
-                seps: t.pick(strs(&[" "]), strs(&[" ", "-", ", ", ". ", "\n", "'"])),
-                ends: t.pick(strs(&[""]), strs(&["", "."])),
-            },
-            embed: false,
-        });
+        if t == Tier::Thorough {
+            fams.push(Family {
+                name: "G2/pairs".into(),
+                fes: fe_plain.clone(),
+                generator: Gen::Pairs {
+                    vocab: vocab.clone(),
+                    vocab2: vocab.clone(),
+                    seps: strs(&[" ", "-", ", ", ". ", "\n", "'"]),
+                    ends: strs(&["", "."]),
+                },
+                embed: false,
+            });
+        } else {
+            // quick: every word next to (before and after) each of the 300 shortest words, which
+            // are the function words most rules key on (bound lowered, nothing sampled)
+            let short: Arc<Vec<String>> = Arc::new(h.vocab.iter().take(300).cloned().collect());
+            fams.push(Family {
+                name: "G2/pairs(V x V300)".into(),
+                fes: fe_plain.clone(),
+                generator: Gen::Pairs {
+                    vocab: vocab.clone(),
+                    vocab2: short.clone(),
+                    seps: strs(&[" "]),
+                    ends: strs(&[""]),
+                },
+                embed: false,
+            });
+            fams.push(Family {
+                name: "G2/pairs(V300 x V)".into(),
+                fes: fe_plain.clone(),
+                generator: Gen::Pairs {
+                    vocab: short,
+                    vocab2: vocab.clone(),
+                    seps: strs(&[" "]),
+                    ends: strs(&[""]),
+                },
+                embed: false,
+            });
+        }
         if t == Tier::Thorough {
             fams.push(Family {
                 name: "G2/pairs-ends".into(),
@@ -219,7 +247,7 @@ impl Sweep {
 
         // C02/C03 do not need the quadratic G2 family at full size in the quick tier.
         if mode != Mode::C01 && t == Tier::Quick {
-            fams.retain(|f| f.name != "G2/pairs");
+            fams.retain(|f| !f.name.starts_with("G2/pairs"));
             let small: Arc<Vec<String>> = Arc::new(
                 h.vocab
                     .iter()
@@ -443,7 +471,7 @@ impl Sweep {
             out.violation(
                 0,
                 Violation {
-                    sig: format!("{sig}@{}", class_name(class)),
+                    sig: format!("{}:{sig}", class_name(class)),
                     case: self.case_json(fam, fe, text),
                     detail,
                 },
@@ -486,7 +514,7 @@ impl Sweep {
                     out.violation(
                         0,
                         Violation {
-                            sig: format!("{sig}@{}", class_name(class)),
+                            sig: format!("{}:{sig}", class_name(class)),
                             case: self.case_json(fam, fe, text),
                             detail: json!({"pass": pass, "lint": lint_json(l), "problem": detail}),
                         },
@@ -495,6 +523,63 @@ impl Sweep {
             }
         }
         out.outcome(h64(&(class as u8, kinds, l1.len().min(4))));
+
+        // Third pass: the same clauses behind a multi-byte paragraph, same long-lived linter, so
+        // cached chunk results are rebased to a different offset (pull_by/push_by path).
+        if matches!(class, Class::Plain | Class::Markdown) && !l1.is_empty() {
+            let prefix = "Éé 😀 fine.\n\n";
+            let text2 = format!("{prefix}{text}");
+            let chars2 = s2c(&text2);
+            let shift = s2c(prefix).len();
+            let fes = std::mem::take(&mut self.fes);
+            let r = catch(|| {
+                let (parser, dict) = fes[fe].prepare(&chars2, &curated);
+                let doc = Document::new(&text2, &parser, &dict);
+                self.linter(0).lint(&doc)
+            });
+            self.fes = fes;
+            if let Ok(l3) = r {
+                out.count("lints_checked", l3.len() as u64);
+                out.count("shifted_documents", 1);
+                for l in &l3 {
+                    if let Some((sig, detail)) = check_lint(&chars2, l) {
+                        out.violation(
+                            0,
+                            Violation {
+                                sig: format!("{}:shifted:{sig}", class_name(class)),
+                                case: self.case_json(fam, fe, &text2),
+                                detail: json!({"pass": "shifted", "lint": lint_json(l), "problem": detail}),
+                            },
+                        );
+                    }
+                }
+                // every lint of the original must reappear shifted, pointing at the same characters
+                // (only when the original had no quotes, whose pairing is positional, and the text
+                // did not start mid-construct: compare by flagged text, not by count)
+                if !text.contains(['"', '“', '”']) && self.fes[fe].name == "plain" {
+                    for l in &l1 {
+                        let want = (l.span.start + shift, l.span.end + shift);
+                        let found = l3.iter().any(|m| {
+                            (m.span.start, m.span.end) == want
+                                && m.message == l.message
+                                && m.suggestions == l.suggestions
+                        });
+                        if !found {
+                            out.violation(
+                                0,
+                                Violation {
+                                    sig: format!("{}:shifted:lint-lost-or-moved", class_name(class)),
+                                    case: self.case_json(fam, fe, &text2),
+                                    detail: json!({"original_text": text, "original_lint": lint_json(l), "shift": shift,
+                                        "shifted_lints": l3.iter().map(lint_json).collect::<Vec<_>>()}),
+                                },
+                            );
+                            break;
+                        }
+                    }
+                }
+            }
+        }
     }
 }
 
@@ -576,12 +661,17 @@ pub fn check_lint(text: &[char], l: &Lint) -> Option<(String, Value)> {
     None
 }
 
-fn punct_ok(p: &Punctuation, txt: &[char]) -> bool {
+fn punct_ok(p: &Punctuation, txt: &[char], markup: bool) -> bool {
     let s: String = txt.iter().collect();
     let one = |opts: &[&str]| opts.contains(&s.as_str());
     match p {
         Punctuation::Ellipsis => {
-            s == "…" || (txt.len() >= 2 && txt.iter().all(|c| *c == '.'))
+            // In markup front-ends the periods of an ellipsis may be separated by markup that does
+            // not render (an escape backslash, a comment): require only that it starts and ends
+            // with a period there. In plain text it must be the mark itself.
+            s == "…"
+                || (txt.len() >= 2 && txt.iter().all(|c| *c == '.'))
+                || (markup && txt.len() >= 2 && txt[0] == '.' && txt[txt.len() - 1] == '.')
         }
         Punctuation::EnDash => one(&["–"]),
         Punctuation::EmDash => one(&["—"]),
@@ -674,8 +764,14 @@ pub fn check_tokens(
             return;
         }
         if s < prev_end {
+            let pk = prev_i.map(|p| kind_name(&toks[p].kind)).unwrap_or("-");
+            let shape = match prev_i {
+                Some(p) if toks[p].span == t.span => "duplicate-span",
+                Some(p) if s < toks[p].span.start => "disorder",
+                _ => "overlap",
+            };
             problems.push((
-                format!("{stage}:overlap-or-disorder"),
+                format!("{stage}:{shape}:{pk}+{}", kind_name(&t.kind)),
                 json!({"token": i, "span":[s,e], "previous_token": prev_i, "previous_end": prev_end,
                        "kinds": [prev_i.map(|p| kind_name(&toks[p].kind)), Some(kind_name(&t.kind))]}),
             ));
@@ -692,7 +788,10 @@ pub fn check_tokens(
         match &t.kind {
             TokenKind::Word(_) => {
                 if txt.iter().any(|c| c.is_whitespace()) {
-                    problems.push((format!("{stage}:shape-word-has-whitespace"), json!({"token": i, "text": c2s(txt)})));
+                    // cause class: the condensed Latin phrase is a documented single token
+                    let low = c2s(txt).to_lowercase();
+                    let class = if low == "et al." { "et-al" } else { "other" };
+                    problems.push((format!("{stage}:shape-word-has-whitespace:{class}"), json!({"token": i, "text": c2s(txt)})));
                 }
             }
             TokenKind::Space(_) => {
@@ -753,7 +852,7 @@ pub fn check_tokens(
                 }
             }
             TokenKind::Punctuation(p) => {
-                if !punct_ok(p, txt) {
+                if !punct_ok(p, txt, !tiles) {
                     problems.push((
                         format!("{stage}:shape-punctuation-{}", format!("{p:?}").split('(').next().unwrap_or("")),
                         json!({"token": i, "text": c2s(txt), "punct": format!("{p:?}")}),
